@@ -127,4 +127,169 @@ theorem equal_field_eq_top (env : Env) (T : Ty) (x y : Val)
 example : Equal.field env tNode x1 y1 = Equal.top env tNode x1 y1 :=
   equal_field_eq_top env tNode x1 y1 env_flagsOk x1_typed y1_typed env_supportedComp
 
+/-- Why `equal_field_eq_top` asks for `SupportedComp` rather than `Supported`: for the unnamed,
+non-comparable `struct{ []int64 }` the top-level function is generated (and correct), but in
+component position the generator refuses to emit anything. -/
+example :
+    let T : Ty := .struct (.fcons (.slice (.basic (.int 64 true))) .fnil)
+    let v : Val := .struct (.scons .nilv .snil)
+    Supported env T = true ∧ SupportedComp env T = false ∧ hasType env T v = true ∧
+      Equal.top env T v v = .ok true ∧ Equal.field env T v v = .panic := by
+  refine ⟨by decide, by decide, by goderive_eval [env], ?_, ?_⟩
+  · rw [equal_correct env _ _ _ env_flagsOk (by goderive_eval [env]) (by goderive_eval [env])
+      (by decide)]
+    goderive_eval [env]
+  · rw [Equal.field.eq_def]; simp [canEqual, Env.under, Ty.isNamed]
+
+/-! ### 2. Reflexive, symmetric, transitive -/
+
+/-- Structural equality is reflexive on well-typed NaN-free values. (`env.flagsOk` is not needed.) -/
+theorem structEq_refl (env : Env) (T : Ty) (x : Val)
+    (hx : hasType env T x = true) (hn : nanFree x = true) :
+    Spec.structEq env T x x = true := (reflOK x).val T hx hn
+
+example : Spec.structEq env tNode x1 x1 = true := structEq_refl env tNode x1 x1_typed x1_nanFree
+
+/-- NaN-freeness is necessary: `NaN ≠ NaN`. -/
+example : hasType env (.basic (.float 64)) (.flt 64 0x7ff8000000000000) = true ∧
+    Spec.structEq env (.basic (.float 64)) (.flt 64 0x7ff8000000000000)
+      (.flt 64 0x7ff8000000000000) = false := by
+  constructor
+  · goderive_eval
+  · rw [structEq_eval_basic]; decide
+
+/-- Structural equality is symmetric on well-typed values (NaN-freeness is not needed). For maps this
+is the pigeonhole argument: distinct keys, equal lengths. -/
+theorem structEq_symm (env : Env) (T : Ty) (x y : Val)
+    (hf : env.flagsOk = true) (hx : hasType env T x = true) (hy : hasType env T y = true) :
+    Spec.structEq env T x y = Spec.structEq env T y x := (symmOK hf x).val T y hx hy
+
+example : Spec.structEq env tNode y1 x1 = true := by
+  rw [structEq_symm env tNode y1 x1 env_flagsOk y1_typed x1_typed, x1_y1_structEq]
+
+/-- Structural equality is transitive on well-typed values (neither `env.flagsOk` nor NaN-freeness
+is needed). -/
+theorem structEq_trans (env : Env) (T : Ty) (x y z : Val)
+    (hx : hasType env T x = true) (hy : hasType env T y = true) (hz : hasType env T z = true)
+    (h1 : Spec.structEq env T x y = true) (h2 : Spec.structEq env T y z = true) :
+    Spec.structEq env T x z = true := (transOK x).val T y z hx hy hz h1 h2
+
+example : Spec.structEq env tNode y1 y1 = true :=
+  structEq_trans env tNode y1 x1 y1 y1_typed x1_typed y1_typed
+    (by rw [structEq_symm env tNode y1 x1 env_flagsOk y1_typed x1_typed, x1_y1_structEq])
+    x1_y1_structEq
+
+/-- **C02, "reflexive"** for the emitted code. -/
+theorem equal_refl (env : Env) (T : Ty) (x : Val)
+    (hf : env.flagsOk = true) (hx : hasType env T x = true) (hn : nanFree x = true)
+    (hs : Supported env T = true) :
+    Equal.top env T x x = .ok true := by
+  rw [equal_correct env T x x hf hx hx hs, structEq_refl env T x hx hn]
+
+example : Equal.top env tNode x1 x1 = .ok true :=
+  equal_refl env tNode x1 env_flagsOk x1_typed x1_nanFree env_supported
+
+/-- **C02, "symmetric"** for the emitted code. -/
+theorem equal_symm (env : Env) (T : Ty) (x y : Val)
+    (hf : env.flagsOk = true) (hx : hasType env T x = true) (hy : hasType env T y = true)
+    (hs : Supported env T = true) :
+    Equal.top env T x y = Equal.top env T y x := by
+  rw [equal_correct env T x y hf hx hy hs, equal_correct env T y x hf hy hx hs,
+    structEq_symm env T x y hf hx hy]
+
+example : Equal.top env tNode x1 y1 = Equal.top env tNode y1 x1 :=
+  equal_symm env tNode x1 y1 env_flagsOk x1_typed y1_typed env_supported
+
+/-- **C02, "transitive"** for the emitted code. -/
+theorem equal_trans (env : Env) (T : Ty) (x y z : Val)
+    (hf : env.flagsOk = true) (hx : hasType env T x = true) (hy : hasType env T y = true)
+    (hz : hasType env T z = true) (hs : Supported env T = true)
+    (h1 : Equal.top env T x y = .ok true) (h2 : Equal.top env T y z = .ok true) :
+    Equal.top env T x z = .ok true := by
+  rw [equal_correct env T x y hf hx hy hs] at h1
+  rw [equal_correct env T y z hf hy hz hs] at h2
+  rw [equal_correct env T x z hf hx hz hs]
+  injection h1 with h1
+  injection h2 with h2
+  rw [structEq_trans env T x y z hx hy hz h1 h2]
+
+example : Equal.top env tNode y1 y1 = .ok true :=
+  equal_trans env tNode y1 x1 y1 env_flagsOk y1_typed x1_typed y1_typed env_supported
+    (by rw [equal_symm env tNode y1 x1 env_flagsOk y1_typed x1_typed env_supported,
+      equal_correct env tNode x1 y1 env_flagsOk x1_typed y1_typed env_supported, x1_y1_structEq])
+    (by rw [equal_correct env tNode x1 y1 env_flagsOk x1_typed y1_typed env_supported,
+      x1_y1_structEq])
+
+/-! ### 3. Irrespective of pointer identity, spare capacity and map insertion order -/
+
+/-- Structural equality does not look at addresses or spare capacity (no typing needed). -/
+theorem structEq_eraseIds (env : Env) (T : Ty) (x y : Val) :
+    Spec.structEq env T (eraseIds x) (eraseIds y) = Spec.structEq env T x y :=
+  structEq_eraseIds' env T x y
+
+example : eraseIds x1 ≠ x1 ∧ Spec.structEq env tNode (eraseIds x1) (eraseIds y1) = true := by
+  refine ⟨by decide, ?_⟩
+  rw [structEq_eraseIds, x1_y1_structEq]
+
+/-- **C02, "irrespective of pointer identity, spare capacity"** for the emitted code. -/
+theorem equal_eraseIds (env : Env) (T : Ty) (x y : Val)
+    (hf : env.flagsOk = true) (hx : hasType env T x = true) (hy : hasType env T y = true)
+    (hs : Supported env T = true) :
+    Equal.top env T (eraseIds x) (eraseIds y) = Equal.top env T x y := by
+  rw [equal_correct env T x y hf hx hy hs,
+    equal_correct env T _ _ hf (by rwa [hasType_eraseIds]) (by rwa [hasType_eraseIds]) hs,
+    structEq_eraseIds]
+
+example : Equal.top env tNode (eraseIds x1) (eraseIds y1) = Equal.top env tNode x1 y1 :=
+  equal_eraseIds env tNode x1 y1 env_flagsOk x1_typed y1_typed env_supported
+
+/-- Structural equality does not look at map insertion order, left argument. (Key distinctness is
+part of `hasType`; the specification does not even need it.) -/
+theorem structEq_map_perm_left (env : Env) (T : Ty) (a a' : Nat) (es es' y : Val)
+    (h1 : hasType env T (.map a es) = true) (h2 : hasType env T (.map a' es') = true)
+    (hp : es.toList.Perm es'.toList) :
+    Spec.structEq env T (.map a es) y = Spec.structEq env T (.map a' es') y :=
+  structEq_map_perm_left' y h1 h2 hp
+
+/-- Structural equality does not look at map insertion order, right argument. -/
+theorem structEq_map_perm_right (env : Env) (T : Ty) (a a' : Nat) (es es' y : Val)
+    (h1 : hasType env T (.map a es) = true) (h2 : hasType env T (.map a' es') = true)
+    (hp : es.toList.Perm es'.toList) :
+    Spec.structEq env T y (.map a es) = Spec.structEq env T y (.map a' es') :=
+  structEq_map_perm_right' y h1 h2 hp
+
+/-- **C02, "irrespective of map insertion order"** for the emitted code (both arguments). -/
+theorem equal_map_perm (env : Env) (T : Ty) (a a' b b' : Nat) (es es' fs fs' : Val)
+    (hf : env.flagsOk = true) (hs : Supported env T = true)
+    (h1 : hasType env T (.map a es) = true) (h2 : hasType env T (.map a' es') = true)
+    (h3 : hasType env T (.map b fs) = true) (h4 : hasType env T (.map b' fs') = true)
+    (hp : es.toList.Perm es'.toList) (hq : fs.toList.Perm fs'.toList) :
+    Equal.top env T (.map a es) (.map b fs) = Equal.top env T (.map a' es') (.map b' fs') := by
+  rw [equal_correct env T _ _ hf h1 h3 hs, equal_correct env T _ _ hf h2 h4 hs,
+    structEq_map_perm_left env T a a' es es' _ h1 h2 hp,
+    structEq_map_perm_right env T b b' fs fs' _ h3 h4 hq]
+
+/-- a map type over the example world: `map[string]Pt`, and two insertion orders of one map -/
+def tMap : Ty := .map (.basic .string) (.named 1)
+def m1 : Val := .scons (.pair (.str [97]) (pt 0 1)) (.scons (.pair (.str [98]) (pt 5 6)) .snil)
+def m2 : Val := .scons (.pair (.str [98]) (pt 5 6)) (.scons (.pair (.str [97]) (pt 0 1)) .snil)
+
+theorem m1_typed (a : Nat) : hasType env tMap (.map a m1) = true := by
+  goderive_eval [env, tMap, m1, pt]
+theorem m2_typed (a : Nat) : hasType env tMap (.map a m2) = true := by
+  goderive_eval [env, tMap, m2, pt]
+theorem m1_perm_m2 : m1.toList.Perm m2.toList := by
+  simp only [m1, m2, Val.toList]; exact List.Perm.swap ..
+
+example (y : Val) : Spec.structEq env tMap (.map 1 m1) y = Spec.structEq env tMap (.map 2 m2) y :=
+  structEq_map_perm_left env tMap 1 2 m1 m2 y (m1_typed 1) (m2_typed 2) m1_perm_m2
+example (y : Val) : Spec.structEq env tMap y (.map 1 m1) = Spec.structEq env tMap y (.map 2 m2) :=
+  structEq_map_perm_right env tMap 1 2 m1 m2 y (m1_typed 1) (m2_typed 2) m1_perm_m2
+example : Equal.top env tMap (.map 1 m1) (.map 3 m1) = Equal.top env tMap (.map 2 m2) (.map 4 m2) :=
+  equal_map_perm env tMap 1 2 3 4 m1 m2 m1 m2 env_flagsOk (by decide)
+    (m1_typed 1) (m2_typed 2) (m1_typed 3) (m2_typed 4) m1_perm_m2 m1_perm_m2
+example : Equal.top env tMap (.map 1 m1) (.map 2 m2) = .ok true := by
+  rw [equal_correct env tMap _ _ env_flagsOk (m1_typed 1) (m2_typed 2) (by decide)]
+  goderive_eval [env, tMap, m1, m2, pt]
+
 end Goderive.C02
